@@ -357,7 +357,34 @@ pub fn run(tier: Tier, _replay: Option<Value>) -> ! {
                         match o {
                             Outcome::Ok(b) => absorb(&mut rep, &b, what, &c.tags),
                             bad => {
-                                let mut tags = c.tags.clone();
+                                let mut bad = bad;
+                                if matches!(bad, Outcome::Timeout) {
+                                    // slow is not the same as hanging: once more with four times the cap
+                                    let cfg4 = PoolCfg::new("c01").timeout_ms(12_000);
+                                    let again = pool::run(&cfg4, &[json!({"mode": mode, "lines": [c.text]}).to_string().into_bytes()]);
+                                    match again.into_iter().next() {
+                                        Some(Outcome::Ok(b)) => {
+                                            rep.add("slow_cases_finished_with_4x_cap", 1);
+                                            absorb(&mut rep, &b, what, &c.tags);
+                                            continue;
+                                        }
+                                        Some(o) => bad = o,
+                                        None => {}
+                                    }
+                                    // a parser entry point that does not finish on a whole program text is a defect of
+                                    // the SHELL only if the shell itself does not finish that text either
+                                    if mode == "parse" && matches!(bad, Outcome::Timeout) {
+                                        let mut sp = bash::spec_dash_c(&procs::brush_path(), &format!("set -n\n{}", c.text), 10_000);
+                                        sp.no_confirm = true;
+                                        sp.cap_output = 4096;
+                                        let o = procs::run_one(&sp, &procs::scratch_root().join("c01confirm"));
+                                        if !o.timed_out {
+                                            rep.add("entry_point_timeouts_not_reproduced_by_the_shell", 1);
+                                            continue;
+                                        }
+                                    }
+                                }
+                                let mut tags = input_tags(&c.text, &c.tags);
                                 tags.push(if matches!(bad, Outcome::Timeout) { "timeout".into() } else { "worker-death".into() });
                                 rep.fail(Failure { case: format!("{what}: {:?}", c.text), tags, expected: "returns".into(), observed: bad.describe(), oracle: "no-crash".into() });
                             }
